@@ -22,5 +22,5 @@ one() {
   git -C /repo worktree remove --force "$W" >/dev/null 2>&1; rm -rf "$W" "$EVD" "$VERIF/.build/sm-$ID"
 }
 export -f one
-ls "$VERIF/seeded" | grep -E '^C[0-9]+-[0-9]+$' | grep -E "$FILTER" | xargs -P 4 -I{} bash -c 'one {} '"$VERIF"' '"$OUT"
+ls "$VERIF/seeded" | grep -E '^C[0-9]+-[0-9]+$' | grep -E -e "$FILTER" | xargs -P 4 -I{} bash -c 'one {} '"$VERIF"' '"$OUT"
 sort "$OUT"
